@@ -229,8 +229,7 @@ class Pools:
         return f"045 {m}"
 
 
-def concretise(sym: list[str], cuts: list[int], pools: Pools, rng: random.Random,
-               char_level: str | None = None) -> dict:
+def concretise(sym: list[str], cuts: list[int], pools: Pools, rng: random.Random) -> dict:
     """symbols + cuts -> byte chunks.  Every line (and the unterminated tail) gets one content text that
     is split over the line's x/z symbols.  Returns the item skeleton (sym, content, lines' bytes, chunks)."""
     lines, tail = py_split(sym)
